@@ -52,7 +52,7 @@ def tasks_for(pid):
         if not c.verify:
             continue
         if pid in contract_props(c):
-            for cls in (c.for_cls or [qual.split('.')[0]]):
+            for cls in (c.for_cls or [c.qual.split('.')[0]]):
                 out.append((qual, cls))
     return out
 
